@@ -224,8 +224,18 @@ func (m *Manager) registerConnection(conn *Connection) {
 // handleDisconnect is called when a connection is closed.
 func (m *Manager) handleDisconnect(conn *Connection, err error) {
 	m.mu.Lock()
+	existing, ok := m.peers[conn.RemoteID]
+	if ok && existing != conn {
+		// A different connection to this peer has been registered since conn
+		// died. Both readLoop and keepaliveLoop report a dead connection, and
+		// the later report can arrive after a reconnect. The peer is connected:
+		// reporting a disconnect now would make the owner drop the routes and
+		// relays of the new connection, and there is nothing to reconnect.
+		m.mu.Unlock()
+		return
+	}
 	// Remove from peers map if this is still the active connection
-	if existing, ok := m.peers[conn.RemoteID]; ok && existing == conn {
+	if ok {
 		delete(m.peers, conn.RemoteID)
 	}
 
